@@ -2,8 +2,8 @@
 From Coq Require Import Sorting.Permutation.
 From CKC Require Import Base.Prelude Base.Reflect Base.SortN Spec.Layout Spec.Poker.
 From CKC Require Import Model.Card Model.Hands Model.Five Model.HandRank.
-From CKC Require Import Proofs.CardFacts Proofs.SortFacts Proofs.BitFacts Proofs.FiveFacts Proofs.PokerFacts
-  Proofs.RankedFacts Proofs.ShapeFacts Proofs.ValidFacts.
+From CKC Require Import Proofs.CardBase Proofs.SortFacts Proofs.BitFacts Proofs.FiveFacts Proofs.PokerFacts
+  Proofs.RankedFacts Proofs.ShapeFacts Proofs.ValidReal.
 From CKC Require Export Proofs.HandFacts.
 From CKC Require Import Model.Search.
 Open Scope N_scope.
@@ -52,7 +52,7 @@ Proof.
   assert (E3 : hand_rank_value chk ws = Ok v).
   { unfold hand_rank_value, rmap. rewrite E1, E2. reflexivity. }
   assert (E4 : hand_rank_value_validated chk ws = Ok v).
-  { unfold hand_rank_value_validated. rewrite (proj2 (is_valid_spec ws) (conj HR HN)). exact E3. }
+  { unfold hand_rank_value_validated. rewrite (is_valid_real ws HR HN). exact E3. }
   repeat split; try assumption.
   - now rewrite E1.
   - rewrite E3. reflexivity.
